@@ -136,8 +136,9 @@ Proof. vm_compute. reflexivity. Qed.
             # a conversion tried from the second thread before its equivalence is declared, declared by the main thread, tried again
             ops += [["unit", "length"], ["tquery", m_(1), 5, 1, 2, 1], ["equals", 5, 1, m_(2), 2, 1], ["tquery", m_(1), 5, 1, 2, 1], ["query", "in_unit", m_(1), 5, 1, 2, 1], ["tquery", m_(1), 5, 1, 2, 1]]
         return ops + seq
+    check_all = set()
     for k_ in range(10 if c.tier == "quick" else 80):
-        hists.append(scale_history(c.rng, threaded=(k_ % 2 == 1)))
+        hists.append(scale_history(c.rng, threaded=(k_ % 2 == 1))); check_all.add(len(hists) - 1)
     for _ in range(40 if c.tier == "quick" else 500):
         hists.append(cyc_history(c.rng))
     with concurrent.futures.ThreadPoolExecutor(16) as ex:
@@ -146,7 +147,7 @@ Proof. vm_compute. reflexivity. Qed.
         for hi, (h, r) in enumerate(zip(hists, full)):
             qs = [i for i, o in enumerate(h) if o[0] in QUERY_OPS]
             if not qs: continue
-            pick = set([qs[-1]] + c.rng.sample(qs, min(len(qs), 3 if c.tier == "quick" else 6)))
+            pick = set(qs) if hi in check_all else set([qs[-1]] + c.rng.sample(qs, min(len(qs), 3 if c.tier == "quick" else 6)))
             for t in sorted(pick):
                 jobs.append((hi, t))
         fresh = list(ex.map(lambda jt: fresh_replay(hists[jt[0]], jt[1]), jobs))
